@@ -567,8 +567,11 @@ def parent_main(prop: str, tier: str, nshards: int | None = None) -> int:
                                   "occurrences": f["count"]}, indent=1, default=_json_default))
         violations.append((sig, f, rp))
 
+    printed = set()
     for ent, f in known_hits:
-        print(f"KNOWN-FINDING: property={prop} {ent['what']}")
+        if ent["key"] not in printed:
+            printed.add(ent["key"])
+            print(f"KNOWN-FINDING: property={prop} {ent['what']}")
     # a listed known finding whose dedicated probe no longer fails is only a note
     for (p_, key), ent in known.items():
         if p_ == prop and ent.get("status") == "known" and not any(e is ent for e, _ in known_hits):
@@ -594,7 +597,7 @@ def parent_main(prop: str, tier: str, nshards: int | None = None) -> int:
         "shard_wall_s": [round(r["wall_s"], 1) for r in results],
         "exhaustive": False,
         "exhaustive_parts": exhaustive_parts,
-        "known_findings_reproduced": [e["key"] for e, _ in known_hits],
+        "known_findings_reproduced": sorted({e["key"] for e, _ in known_hits}),
         "failure_signatures": {s: f["count"] for s, f in failures.items()},
     }
     ev = {
